@@ -45,7 +45,7 @@ def c15(chk):
     chk.assumptions = ["hbar = 2 k^2 with rational k in {1, 1/2, 3/2, 2}; after homodyne the comparison is at 1e-5 (finite squeezing eps)"]
     pairs = [((1, 1), (1, 2)), ((3, 2), (2, 1))] if tier == "quick" else [((1, 1), (1, 2)), ((3, 2), (2, 1)), ((1, 2), (3, 2)), ((2, 1), (1, 1))]
     for (k1, k2) in pairs:
-        plans = [(2, 2, [("gaussian", None), ("bosonic", None)]), (2, 1, [("fock", 12), ("fockmixed", 9)])]
+        plans = [(2, 2, [("gaussian", None), ("bosonic", None)])] + ([(2, 1, [("fock", 12), ("fockmixed", 9)])] if (k1, k2) == pairs[0] else [])
         if tier != "quick":
             plans = [(2, 2, [("gaussian", None), ("bosonic", None), ("fock", 12), ("fockmixed", 9)]), (3, 1, [("gaussian", None), ("bosonic", None), ("fock", 9)])]
         for (n, depth, cfgs) in plans:
